@@ -48,4 +48,15 @@ mut("C17 unguarded println in sample", [(SAM, "    let u_trop = permatuhedral_sa
 mut("C17 N: immutable static + debug println", [(SAM, "    let u_trop = permatuhedral_sample.u_trop;", "    static NAMES: [&str; 2] = [\"u\", \"v\"];\n    if settings.print_debug_info { println!(\"{}\", NAMES[0]); }\n    let u_trop = permatuhedral_sample.u_trop;")], C17=None)
 mut("C17 N: String field in table", [(PRE, "    pub cached_factor: f64,\n}", "    pub cached_factor: f64,\n    pub label: String,\n}"), (PRE, "            cached_factor,\n            tropical_graph: tropical_graph.clone(),", "            cached_factor,\n            label: String::new(),\n            tropical_graph: tropical_graph.clone(),")], C17=None, C18=None)
 
+# ---- C14 ----
+mut("C14 lambda reuses a Feynman parameter", [(SAM, "        mimic_rng.get_random_number(Some(\"sample lambda\")),\n        50,", "        &permatuhedral_sample.x[0],\n        50,")], C14="C14-", C12="C12-b")
+mut("C14 read value dropped in sector", [(SAM, "        let xi = rng.get_random_number(Some(\"sample xi\"));", "        let _skipped = rng.get_random_number(Some(\"skip\"));\n        let xi = rng.get_random_number(Some(\"sample xi\"));")], C14="C14-")
+mut("C14 reader zero returns an element", [(RNG, "        self.cache[0].zero()", "        self.cache[0].clone()")], C14="C14-a")
+mut("C14 counter advances by two", [(RNG, "        self.counter += 1;", "        self.counter += 2;")], C14="C14-b")
+mut("C14 element after increment", [(RNG, "        let random_number = &self.cache[self.counter];\n        self.counter += 1;", "        self.counter += 1;\n        let random_number = &self.cache[self.counter];")], C14="C14-b")
+mut("C14 gaussians scaled by a Feynman parameter", [(SAM, "    let q_vectors = sample_q_vectors(&mut mimic_rng, tropical_subgraph_table.dimension, num_loops);", "    let mut q_vectors = sample_q_vectors(&mut mimic_rng, tropical_subgraph_table.dimension, num_loops);\n    q_vectors[0] = &q_vectors[0] * &permatuhedral_sample.x[0];")], C14="C14-c")
+mut("C14 gauss reads the slice directly", [(SAM, "    let q_vectors = sample_q_vectors(&mut mimic_rng, tropical_subgraph_table.dimension, num_loops);", "    let mut tail_rng = MimicRng::new(&x_space_point[x_space_point.len() - 2..]);\n    let q_vectors = sample_q_vectors(&mut tail_rng, tropical_subgraph_table.dimension, num_loops);")], C14="C14")
+mut("C14 xi read even when graph is empty", [(SAM, "        graph = graph_without_edge;\n        if graph.is_empty() {\n            break;\n        }\n\n        let xi = rng.get_random_number(Some(\"sample xi\"));", "        graph = graph_without_edge;\n        let xi = rng.get_random_number(Some(\"sample xi\"));\n        if graph.is_empty() {\n            break;\n        }\n")], C14="C14-f")
+mut("C14 N: rename locals and reorder lets", [(SAM, "    let u_vectors = compute_u_vectors(&permatuhedral_sample.x, loop_signature, &edge_shifts);", "    let uvs = compute_u_vectors(&permatuhedral_sample.x, loop_signature, &edge_shifts);\n    let u_vectors = uvs;")], C14=None, C17=None, C12=None, C16=None)
+
 MUTATIONS = M
